@@ -239,8 +239,8 @@ Proof.
   intros M W Hr Hf. rewrite <- (imp_ForEach_stop_ok 0 fuel h x r M W Hr Hf).
   unfold imp_trie_Trie_ForEach, imp_trie_Trie_ForEach_stop. cbv zeta.
   destruct (imp_trie_Trie_keys h (addr x)) as [| |[h' ks]| |]; cbn [go_call]; try reflexivity.
-  change (go_while fuel _ _ ?s0) with (go_while fuel (fun _ => Ret true) fe_body s0) at 1.
-  change (go_while fuel _ _ ?s0) with (go_while fuel (fun _ => Ret true) (fes_body 0) s0) at 2.
+  timeout 120 (change (go_while fuel _ _ ?s0) with (go_while fuel (fun _ => Ret true) fe_body s0) at 1).
+  timeout 120 (change (go_while fuel _ _ ?s0) with (go_while fuel (fun _ => Ret true) (fes_body 0) s0) at 2).
   rewrite (go_while_ext _ fe_body (fes_body 0) fe_body_stop0). reflexivity.
 Qed.
 
